@@ -48,7 +48,8 @@ def canon(api):
 
 src = case["src_abs"]; root = case["root"]
 nc = "-nc" in case["argv"]
-api = get_api(root=Path(src), docstring_style=DocstringStyle.PLAINTEXT)
+style = DocstringStyle.from_string(case["argv"][case["argv"].index("--docstyle") + 1]) if "--docstyle" in case["argv"] else DocstringStyle.PLAINTEXT
+api = get_api(root=Path(src), docstring_style=style)
 dumps = [canon(api)]
 gens = []
 gen = StubsStringGenerator(api=api, convert_identifiers=nc)
@@ -109,6 +110,15 @@ def history_package(rng, gated: set) -> dict:
         "class _Registry:\n    class Entry(ABC):\n        def __init__(self, key: str) -> None:\n            self.key = key\n\n    def inherited_lookup(self, key: str) -> 'Entry': ...\n\n\n"
         "class DiskRegistry(_Registry):\n    pass\n\n\nclass MemoryRegistry(_Registry):\n    pass\n\n\nclass Square(Shape):\n    def area(self) -> float: ...\n"
     )
+    # documented classes: examples in the class and in the __init__ docstring, a documented public class nested in a
+    # private base that two public classes inherit (rendered twice)
+    files["src/pk/documented_mod.py"] = (
+        'class WithExamples:\n    """Has examples.\n\n    Examples\n    --------\n    >>> WithExamples(1)\n    """\n\n'
+        '    def __init__(self, n: int) -> None:\n        """Create.\n\n        Parameters\n        ----------\n        n : int\n            Count.\n\n        Examples\n        --------\n        >>> w = WithExamples(2)\n        >>> w.n\n        """\n        self.n = n\n\n\n'
+        'class _DocBase:\n    class Options:\n        """Options.\n\n        Examples\n        --------\n        >>> Options()\n        """\n\n        def __init__(self, level: int = 0) -> None:\n            """Init.\n\n            Examples\n            --------\n            >>> Options(3)\n            """\n            self.level = level\n\n'
+        '    def inherited_documented(self, a: int) -> int:\n        """Doc.\n\n        Examples\n        --------\n        >>> x.inherited_documented(1)\n        """\n        return a\n\n\n'
+        'class DocA(_DocBase):\n    pass\n\n\nclass DocB(_DocBase):\n    pass\n'
+    )
     files["src/pk/other_mod.py"] = (
         "from typing import Literal\nfrom pathlib import Path\nfrom fractions import Fraction\nfrom logging.handlers import SocketHandler, QueueHandler\nfrom wsgiref.handlers import SimpleHandler\nfrom pk.base_mod import SubOne, _PrivBase\n\n\n"
         "class Far(_PrivBase):\n    def far_own(self, f: Fraction, p: Path) -> None: ...\n\n    def same_last_segment(self, a: SocketHandler, b: SimpleHandler, c: QueueHandler) -> None: ...\n\n\n"
@@ -157,6 +167,9 @@ def main(tier: str, seed: int) -> int:
     for name, files in packs:
         for nc in (False, True):
             opts = ["-nc"] if nc else []
+            if name == "history" or name.startswith("kitchen"):
+                # documented classes (examples in __init__ docstrings, ...) are parsed under a structured style
+                opts = opts + ["--docstyle", ["numpydoc", "google", "rest"][(len(name) + int(nc)) % 3] if name != "history" else ("numpydoc" if not nc else "google")]
             api_case = Case(cid=f"c16-{name}-api-{int(nc)}", files=files, opts=opts, plugin=PLUGIN, meta={"name": name}, reach=REACH, collect=False)
             cli1 = Case(cid=f"c16-{name}-cli1-{int(nc)}", files=files, opts=opts, meta={"name": name}, reach=REACH)
             cli2 = Case(cid=f"c16-{name}-cli2-{int(nc)}", files=files, opts=opts, meta={"name": name}, reach=REACH, ws_of=cli1.cid)
